@@ -508,6 +508,39 @@ func (r *Runner) apply(op Op) bool {
 		}
 		return true
 
+	case "freetail": // A = number of clean pages with the highest ids to free
+		if r.tx == nil || r.txDirtyUnknown {
+			return false
+		}
+		c := r.filter(func(p *pgState, _ bool) bool { return !p.dirty && !p.flushed })
+		n := op.A
+		if n > len(c) {
+			n = len(c)
+		}
+		if n <= 0 {
+			return false
+		}
+		for _, id := range c[len(c)-n:] {
+			p, err := r.page(id)
+			if err != nil {
+				e.Fail("C03", "page-access", "Page(%d) failed: %v", id, err)
+				return true
+			}
+			if err := p.h.Free(); err != nil {
+				e.Fail("C03", "free", "Free(page %d) failed: %v", id, err)
+				return true
+			}
+			p.freed = true
+			if !p.isNew {
+				r.txFreed[id] = true
+			}
+			if r.txRoot == id {
+				r.tx.SetRoot(0)
+				r.txRoot = 0
+			}
+		}
+		return true
+
 	case "setroot":
 		if r.tx == nil {
 			return false
